@@ -158,6 +158,70 @@ fn cross_build(tier: Tier, st: &mut Stats) {
     }
 }
 
+/// Every bigram model of the C07 family (all K=1 row layouts x cost-table subsets, patterned
+/// K up to 17, different widths per side): compile with the raw and the dual connector, write,
+/// read, and compare the complete connection table and the re-written bytes.
+fn codec_sweep(tier: Tier, st: &mut Stats) {
+    let ms = crate::props::c07::models(tier);
+    let res = par_explore(ms.len(), |mi, st| {
+        let (name, b) = &ms[mi];
+        for dual in [false, true] {
+            st.states += 1;
+            st.transitions += 1;
+            let built = guard(|| {
+                vibrato::SystemDictionaryBuilder::from_readers_with_bigram_info(
+                    "a,1,1,0,f\n".as_bytes(),
+                    crate::refmodel::Bigram::render_side(&b.right).as_bytes(),
+                    crate::refmodel::Bigram::render_side(&b.left).as_bytes(),
+                    b.render_cost().as_bytes(),
+                    "DEFAULT 0 1 0\n".as_bytes(),
+                    "DEFAULT,0,0,0,u\n".as_bytes(),
+                    dual,
+                )
+            });
+            let Ok(Ok(d)) = built else { continue };
+            let table = |d: &vibrato::Dictionary| -> Vec<i32> {
+                let (nr, nl) = d.verif_conn_dims();
+                (0..nr).flat_map(|r| (0..nl).map(move |l| (r, l))).map(|(r, l)| d.verif_conn_cost(r as u16, l as u16)).collect()
+            };
+            let before = table(&d);
+            let case = || json!({"kind": "bigram_connector", "model": name, "dual": dual,
+                "bigram.right": crate::refmodel::Bigram::render_side(&b.right), "bigram.left": crate::refmodel::Bigram::render_side(&b.left), "bigram.cost": b.render_cost()});
+            let Ok((bytes, n)) = write_bytes(&d) else {
+                st.violation(Finding { class: "write-fails".into(), what: format!("write failed for model {name}"), replay: case() });
+                continue;
+            };
+            st.count("codec_sweep_images");
+            if n != bytes.len() {
+                st.violation(Finding { class: "write-count-wrong".into(), what: format!("write reported {n} bytes but emitted {} [model {name}]", bytes.len()), replay: case() });
+            }
+            match read_bytes(&bytes) {
+                RealStep::Ok(d2) => {
+                    let after = guard(|| table(&d2));
+                    if after.as_ref().ok() != Some(&before) {
+                        st.violation(Finding {
+                            class: "reloaded-connection-table-differs".into(),
+                            what: format!("model {name} ({}): connection table after write/read {:?}, before {:?}", if dual { "dual" } else { "raw" }, after, before),
+                            replay: case(),
+                        });
+                        continue;
+                    }
+                    if write_bytes(&d2).ok().map(|x| x.0) != Some(bytes) {
+                        st.violation(Finding { class: "rewrite-differs".into(), what: format!("re-written image differs [model {name}]"), replay: case() });
+                    }
+                    st.outcome(&(name, dual, before));
+                }
+                other => st.violation(Finding {
+                    class: format!("read-of-own-image-{}", step_class(&other)),
+                    what: format!("image of model {name} is not readable"),
+                    replay: case(),
+                }),
+            }
+        }
+    });
+    st.merge(res);
+}
+
 pub fn run(tier: Tier) -> i32 {
     let mut rep = Report::new("C05", tier);
     let fams = family_d(tier);
@@ -327,11 +391,12 @@ pub fn run(tier: Tier) -> i32 {
         }
     });
     let mut st = st;
+    codec_sweep(tier, &mut st);
     cross_build(tier, &mut st);
-    rep.rule = format!("state = (dictionary family, history h1 of depth <= {d1}, continuation h2 of depth <= {d2}) over the ops {{load user lexicon x2, clear, map x4, write->read}}; the dictionary after h1 is written, re-read and re-written; then the original and the reloaded instance run h2 in lock-step and are compared on op outcomes, images, the full connection table and the tokens of all sentences of length <= {sent_len} under two option settings; distinct = distinct observation tables");
+    rep.rule = format!("state = (dictionary family, history h1 of depth <= {d1}, continuation h2 of depth <= {d2}) over the ops {{load user lexicon x2, clear, map x4, write->read}}; the dictionary after h1 is written, re-read and re-written; then the original and the reloaded instance run h2 in lock-step and are compared on op outcomes, images, the full connection table and the tokens of all sentences of length <= {sent_len} under two option settings; plus a codec sweep: every bigram model of the C07 family compiled raw and dual, written, re-read and compared on the complete connection table and the re-written bytes; distinct = distinct observation tables");
     rep.bounds = json!({"h1_depth": d1, "h2_depth": d2, "sentence_len": sent_len, "families": fams.iter().map(|f| f.name.clone()).collect::<Vec<_>>()});
     rep.assumptions = vec!["AVX2/portable interchange is checked by the separate dual-build step when an AVX2 CPU is present".into()];
-    let mut req = vec!["continuations_with_behaviour_changing_ops", "images_Matrix", "images_Raw", "images_Dual"];
+    let mut req = vec!["codec_sweep_images", "continuations_with_behaviour_changing_ops", "images_Matrix", "images_Raw", "images_Dual"];
     if st.get("e5_skipped_no_avx2") == 0 {
         req.push("e5_images_portable->avx2");
         req.push("e5_images_avx2->portable");
